@@ -55,3 +55,40 @@ Section Run.
     - reflexivity.
   Qed.
 End Run.
+
+(* C19 on the operation the SOURCE's loop body performs (SourceFacts.mc_step_is_source: the proposal of a step is
+   w_set_sampled on the drawn handle with step max_step * step_ratio): in every reachable state of every run, for every
+   draw, the one parameter it changes moves by at most max_step x (range) / 2, and no other parameter moves *)
+Section SourceStep.
+  Variable fexp : R -> R.
+  Variable score : N -> list R -> option R.
+
+  Lemma nth_set_nth_other (l : list R) i k v d : i <> k -> nth k (set_nth l i v) d = nth k l d.
+  Proof.
+    revert i k. induction l as [|x l IH]; intros [|i] [|k] H; cbn; try reflexivity; try congruence.
+    apply IH. congruence.
+  Qed.
+
+  Lemma nth_set_nth_eq (l : list R) i v d : (i < length l)%nat -> nth i (set_nth l i v) d = v.
+  Proof. revert i. induction l as [|x xs IH]; intros [|i] H; cbn in *; try lia; auto. apply IH. lia. Qed.
+
+  Theorem R_C19_source_proposal_bounded : forall c ps hs s0 draws (d : draw NumR) (h : handle NumR) (w' : world NumR),
+    let st := run NumR fexp score c (init NumR c ps hs s0) draws in
+    let w := mkWorld (params NumR st) (handles NumR st) (calls NumR st) in
+    nth_error (handles NumR st) (d_idx NumR d) = Some h ->
+    (h_cell NumR h < length (params NumR st))%nat ->
+    h_min NumR h <= nth (h_cell NumR h) (params NumR st) 0 <= h_max NumR h ->
+    Rabs (d_g NumR d) <= 1 / 2 -> 0 <= max_step NumR c ->
+    w_set_sampled NumR w (d_idx NumR d) (nmul (max_step NumR c) (ratio NumR st)) (d_g NumR d) = Some w' ->
+    Rabs (nth (h_cell NumR h) (w_params NumR w') 0 - nth (h_cell NumR h) (params NumR st) 0)
+      <= max_step NumR c * (h_max NumR h - h_min NumR h) / 2
+    /\ forall k, k <> h_cell NumR h -> nth k (w_params NumR w') 0 = nth k (params NumR st) 0.
+  Proof.
+    intros c ps hs s0 draws d h w' st w Hh Hlen Hin Hg Hms Hw.
+    unfold w_set_sampled in Hw. cbn [w_handles w_params w_calls w] in Hw. rewrite Hh in Hw. injection Hw as <-.
+    cbn [w_params]. split.
+    - rewrite nth_set_nth_eq by exact Hlen. unfold get_cell.
+      apply (R_C19_every_move_bounded fexp score c ps hs s0 draws h _ (d_g NumR d)); assumption.
+    - intros k Hk. apply nth_set_nth_other. congruence.
+  Qed.
+End SourceStep.
